@@ -208,7 +208,7 @@ class BeltStore(Store):
                         
         else:# if not items succeed, belt is empty and succeed immediately
             #if self.accumulation_mode_indicator==False or (self.accumulation_mode_indicator==True and len(self.ready_items)==0):
-                if len(self.reservations_put) + len(self.items) +len(self.ready_items) < self.capacity:
+                if len(self.reservations_put) + len(self.items) +len(self.ready_items) < self.capacity and (self.accumulation_mode_indicator==True or len(self.ready_items)==0):
 
                     self.reservations_put.append(event)  # Add reservation
                     event.succeed()
